@@ -107,6 +107,63 @@ def next_table(facts):
     return b, entries
 
 
+def next_by_table_lookup(facts, rows):
+    """The other way to write next_input_stream: look the successor up in the role's own table --
+    `input_streams(self).get(i).copied()` with i = 0 for no current stream and position(current) + 1 otherwise (a stream that is
+    not in the table has no successor).  Agreement with the table then holds by construction.  -> None if that is what the rows do,
+    else a description of what does not fit."""
+    n = 0
+    for r in rows:
+        if r.end != 'return' or r.ret is None:
+            continue
+        ret = ir.peel(r.ret)
+        cur_some = None
+        for (e, lab) in nonconst_conds(r):
+            pe = ir.peel(e)
+            if pe[0] == 'discr' and ir.peel(pe[1])[0] == 'param' and ir.peel(pe[1])[2] == 'current' and case_value(lab) is not None:
+                cur_some = case_value(lab) == 1
+        def is_table(x):
+            x = ir.peel(x)
+            while x[0] == 'call' and (x[1].endswith("::iter") or x[1].endswith("into_iter") or ir.is_transparent(x[1])) and x[2]:
+                x = ir.peel(x[2][0])
+            return x[0] == 'call' and x[1].endswith("Role::input_streams") and ir.peel(x[2][0])[0] == 'param'
+        def position_call(x):
+            for y in ir.walk(x):
+                if y[0] == 'call' and y[1].endswith("::position") and len(y[2]) == 2 and is_table(y[2][0]):
+                    cl = ir.peel(y[2][1])
+                    if cl[0] == 'agg' and cl[1] == 'closure':
+                        ups = [ir.peel(u) for (_, u) in cl[3]]
+                        if any(u[0] == 'field' and ir.peel(u[1])[0] == 'variant' and ir.peel(ir.peel(u[1])[1])[0] == 'param' for u in ups):
+                            cb = facts.by_path.get(cl[2])
+                            if cb is not None and any(blk["t"]["k"] == "call" and F.norm(blk["t"]["func"].get("path", "")).endswith("PartialEq::eq") for blk in cb.blocks) \
+                                    or cb is not None and any(st["k"] == "assign" and st["rv"]["k"] == "bin" and st["rv"]["op"] == "Eq" for blk in cb.blocks for st in blk["st"]):
+                                return y
+            return None
+        if ret[0] == 'call' and (ret[1].endswith("::copied") or ret[1].endswith("::cloned")) and ret[2]:
+            gt = ir.peel(ret[2][0])
+            if not (gt[0] == 'call' and gt[1].endswith("::get") and len(gt[2]) == 2 and is_table(gt[2][0])):
+                return "a successor is not taken from the role's own table"
+            idx = ir.peel(gt[2][1])
+            if cur_some is False:
+                if cv(idx) != 0:
+                    return "with no current stream the successor is not the table's first entry"
+            elif cur_some is True:
+                if not (idx[0] == 'bin' and idx[1] in ('Add', 'AddUnchecked') and cv(idx[3]) == 1 and position_call(idx[2]) is not None):
+                    return "the successor of the current stream is not at position(current) + 1 of the table"
+            else:
+                return "a successor is chosen without looking at the current stream"
+            n += 1
+        elif ret[0] == 'call' and ret[1].endswith("from_residual"):
+            if position_call(ret) is None:
+                return "None is returned for something other than a stream that is not in the table"
+            n += 1
+        elif variant_of(ret) == 'None':
+            n += 1
+        else:
+            return "a path returns %s" % ir.show(ret)[:60]
+    return None if n >= 3 else "too few paths"
+
+
 def lookup_next(entries, role, cur):
     hits = set()
     for (c, roles, curtys, nxt) in entries:
@@ -141,10 +198,19 @@ def run(rep, facts):
         rep.ok("R18.1", "output_streams", "per-role output stream lists equal the specification", ob.loc())
     else:
         rep.violation("R18.1", "output_streams", "Role::output_streams is %s, specification says %s" % (otab, SPEC["role_output_streams"]), ob.loc())
-    nb, entries = next_table(facts)
+    nb0, g0, rows0 = rows_of(facts, "%s::next_input_stream" % ROLE)
+    if any(r.ret is not None and ir.peel(r.ret)[0] == 'call' and ir.peel(r.ret)[1].endswith("::copied") for r in rows0):
+        why = next_by_table_lookup(facts, rows0)
+        if why is None:
+            rep.ok("R18.1", "next_input_stream", "the successor is looked up in the role's own table: input_streams(self).get(i), i = 0 or position(current) + 1", nb0.loc())
+        else:
+            rep.violation("R18.1", "next_input_stream", "table-lookup form: " + why, nb0.loc())
+        entries = None
+    else:
+        nb, entries = next_table(facts)
     okn = True
     checked = 0
-    for role, lst in itab.items():
+    for role, lst in (itab.items() if entries is not None else ()):
         seq = [None] + list(lst)
         for i, cur in enumerate(seq):
             want = lst[i] if i < len(lst) else None
@@ -153,7 +219,7 @@ def run(rep, facts):
             if got != {want}:
                 okn = False
                 rep.violation("R18.1", "next_input_stream[%s,%s]" % (role, cur), "next stream after %s for %s is %s, the role's list %s says %s" % (cur, role, sorted(map(str, got)), lst, want), nb.loc())
-    if okn:
+    if okn and entries is not None:
         rep.ok("R18.1", "next_input_stream", "%d (role, current) pairs: the table follows input_streams() exactly and ends with None" % checked, nb.loc())
     for pred, key in (("is_input_stream", "input_stream_types"), ("is_output_stream", "output_stream_types"), ("is_management", "management_types")):
         b, g, rows = rows_of(facts, "%s::%s" % (RT, pred))
